@@ -58,6 +58,14 @@ def gen_cases(rng, tier, info):
     info.update({"times": len(ts), "ticks": len(ks), "api_roundtrips": len(api)})
     from props import c10
     cases += c10.long_cases(tier)
+    import exprgen as X
+    for k, (page, text) in enumerate(((932, "\u65e5\u672c\u8a9e\u65e5\u672c\u8a9e"), (936, "\u4e2d\u6587\u4e2d\u6587\u4e2d"), (949, "\ud55c\uad6d\uc5b4"), (950, "\u4e2d\u6587\u5b57"),
+                                    (1252, "\u00e9\u00e9\u00e9"), (65001, "\u65e5\u672c\u8a9e"))):
+        for n in (1, 2, 3):
+            cmds = ["(create %d)" % (k % 3), "(sum_set codepage %d)" % page, "(sum_set author %s)" % X.enc_str(text * n),
+                    "(sum_set title %s)" % X.enc_str(text[:n]), "(sum_set ctime 1489862796123456700)", "(sum_set words 7)", "(sum_get)",
+                    "(reopen %s)" % ["flush", "into_inner", "drop"][(k + n) % 3], "(sum_get)"]
+            cases.append(Case("dbcs-%d-%d" % (page, n), cmds, ("long",)))
     return cases
 
 
